@@ -16,6 +16,7 @@ import (
 type sImpl struct {
 	big bool
 	l   *listz.SList[int]
+	l2  *listz.SList[int] // second list sharing the nodes; `flip` exchanges l and l2
 	h   []*listz.SNode[int]
 	ids map[*listz.SNode[int]]int
 }
@@ -163,9 +164,37 @@ func implS(c core.Case) []string {
 		})
 }
 
+var sArity = map[string]int{"new": 1, "get": 1, "rm": 1, "rmf": 0, "pf": 1, "pb": 1, "ins": 2, "pfn": 1, "pbn": 1, "insn": 2, "swap": 2, "len": 0, "front": 0, "back": 0, "next": 1}
+
+// wellFormed: a plain protocol line whose node handle (if any) exists now.
+func (d *sImpl) wellFormed(t []string) bool {
+	n, ok := sArity[firstOr(t)]
+	if !ok || len(t) != 1+n {
+		return false
+	}
+	for i := 0; i < n; i++ {
+		x, err := strconv.Atoi(t[1+i])
+		if err != nil || strings.HasPrefix(t[1+i], "+") {
+			return false
+		}
+		isHandle := (t[0] == "pfn" || t[0] == "pbn" || t[0] == "next") && i == 0 || t[0] == "insn" && i == 1
+		if isHandle && (x < 0 || x >= len(d.h)) {
+			return false
+		}
+	}
+	return true
+}
+
 func (d *sImpl) step(t []string) string {
 	if len(t) == 0 {
 		return "bad-op"
+	}
+	if len(t) == 1 && t[0] == "flip" {
+		if d.l2 == nil {
+			d.l2 = new(listz.SList[int])
+		}
+		d.l, d.l2 = d.l2, d.l
+		return "ok"
 	}
 	if t[0] == "pushn" || t[0] == "removen" || t[0] == "removeln" {
 		if len(t) != 2 {
@@ -187,8 +216,58 @@ func (d *sImpl) step(t []string) string {
 		}
 		return "ok"
 	}
-	arity := map[string]int{"new": 1, "get": 1, "rm": 1, "rmf": 0, "pf": 1, "pb": 1, "ins": 2, "pfn": 1, "pbn": 1, "insn": 2, "swap": 2, "len": 0, "front": 0, "back": 0, "next": 1}
-	n, ok := arity[t[0]]
+	if t[0] == "allbody" || t[0] == "walkbody" {
+		acts, brk, ok := parseScript(t[1:])
+		if !ok {
+			return "bad-op"
+		}
+		for _, as := range acts {
+			for _, a := range as {
+				if !d.wellFormed(a) {
+					return "bad-op"
+				}
+			}
+		}
+		var ys []string
+		n := 0
+		body := func() bool {
+			for _, a := range acts[n] {
+				d.step(a)
+				d.discover() // at most one node is allocated per call
+			}
+			if brk[n] {
+				return false
+			}
+			n++
+			return true
+		}
+		if t[0] == "allbody" {
+			for v := range d.l.All() {
+				if n == bigCap {
+					ys = append(ys, "!")
+					break
+				}
+				ys = append(ys, strconv.Itoa(v))
+				if !body() {
+					break
+				}
+			}
+		} else {
+			for e := d.l.Front(); e != nil; e = e.Next() {
+				if n == bigCap {
+					ys = append(ys, "!")
+					break
+				}
+				d.reg(e)
+				ys = append(ys, d.show(e))
+				if !body() {
+					break
+				}
+			}
+		}
+		return "y[" + strings.Join(ys, " ") + "]"
+	}
+	n, ok := sArity[t[0]]
 	if !ok || len(t) != 1+n {
 		return "bad-op"
 	}
@@ -264,7 +343,7 @@ func (d *sImpl) step(t []string) string {
 type sCell struct{ id, v int }
 
 func checkS(c core.Case, out []string) *core.Failure {
-	var s []sCell
+	var s, parked []sCell // the list in focus and the second list (line `flip`)
 	vals := map[int]int{} // value of every allocated node
 	next := 0
 	show := func(p int) string {
@@ -309,6 +388,11 @@ func checkS(c core.Case, out []string) *core.Failure {
 				return true
 			}
 		}
+		for _, x := range parked {
+			if x.id == id {
+				return true
+			}
+		}
 		return false
 	}
 	insert := func(i int, cell sCell) {
@@ -325,48 +409,19 @@ func checkS(c core.Case, out []string) *core.Failure {
 	if want := "ok | " + dump(); out[0] != want {
 		return &core.Failure{Key: "slist-zero-value", Desc: fmt.Sprintf("fresh list: implementation %q, want %q", out[0], want)}
 	}
-	for i := 1; i < len(c.Lines); i++ {
-		t := core.Toks(c.Lines[i])
-		if len(t) == 0 {
-			return nil
-		}
+	// exec runs one plain protocol line on the sequence; ok = false: malformed or unspecified
+	exec := func(t []string) (string, bool) {
 		a := make([]int, len(t)-1)
 		for k := range a {
 			x, err := strconv.Atoi(t[1+k])
 			if err != nil {
-				return nil
+				return "", false
 			}
 			a[k] = x
 		}
-		if t[0] == "pushn" || t[0] == "removen" || t[0] == "removeln" {
-			if len(a) != 1 || a[0] < 0 {
-				return nil
-			}
-			for n := 0; n < a[0]; n++ {
-				switch t[0] {
-				case "pushn":
-					s = append(s, sCell{next, n % 10})
-					next++
-				case "removen":
-					if len(s) > 0 {
-						vals[s[0].id] = s[0].v
-						s = s[1:]
-					}
-				default:
-					if len(s) > 0 {
-						vals[s[len(s)-1].id] = s[len(s)-1].v
-						s = s[:len(s)-1]
-					}
-				}
-			}
-			if want := "ok | " + dump(); out[i] != want {
-				return &core.Failure{Key: "slist-" + t[0], Desc: fmt.Sprintf("op %d %q: implementation answered %q, sequence semantics give %q", i, c.Lines[i], clip(out[i]), clip(want))}
-			}
-			continue
-		}
 		arity := map[string]int{"new": 1, "get": 1, "rm": 1, "rmf": 0, "pf": 1, "pb": 1, "ins": 2, "pfn": 1, "pbn": 1, "insn": 2, "swap": 2, "len": 0, "front": 0, "back": 0, "next": 1}
 		if n, ok := arity[t[0]]; !ok || n != len(a) {
-			return nil
+			return "", false
 		}
 		res := "ok"
 		in := func(k int) bool { return k >= 0 && k < len(s) }
@@ -409,10 +464,10 @@ func checkS(c core.Case, out []string) *core.Failure {
 		case "pfn", "pbn", "insn":
 			e := a[len(a)-1]
 			if e < 0 || e >= next {
-				return nil
+				return "", false
 			}
 			if live(e) {
-				return nil // undocumented misuse: node still linked
+				return "", false // undocumented misuse: node still linked
 			}
 			switch t[0] {
 			case "pfn":
@@ -440,14 +495,135 @@ func checkS(c core.Case, out []string) *core.Failure {
 			}
 		case "next":
 			if a[0] < 0 || a[0] >= next {
-				return nil
+				return "", false
 			}
 			res = "nil"
-			for k := range s {
-				if s[k].id == a[0] && k+1 < len(s) {
-					res = show(s[k+1].id)
+			for _, q := range [][]sCell{s, parked} {
+				for k := range q {
+					if q[k].id == a[0] && k+1 < len(q) {
+						res = show(q[k+1].id)
+					}
 				}
 			}
+		}
+		return res, true
+	}
+	for i := 1; i < len(c.Lines); i++ {
+		t := core.Toks(c.Lines[i])
+		if len(t) == 0 {
+			return nil
+		}
+		if len(t) == 1 && t[0] == "flip" {
+			s, parked = parked, s
+			if want := "ok | " + dump(); out[i] != want {
+				return &core.Failure{Key: "slist-flip", Desc: fmt.Sprintf("op %d %q: implementation answered %q, sequence semantics give %q (second list sharing the nodes)", i, c.Lines[i], clip(out[i]), clip(want))}
+			}
+			continue
+		}
+		if t[0] == "pushn" || t[0] == "removen" || t[0] == "removeln" {
+			a := make([]int, len(t)-1)
+			for k := range a {
+				x, err := strconv.Atoi(t[1+k])
+				if err != nil {
+					return nil
+				}
+				a[k] = x
+			}
+			if len(a) != 1 || a[0] < 0 {
+				return nil
+			}
+			for n := 0; n < a[0]; n++ {
+				switch t[0] {
+				case "pushn":
+					s = append(s, sCell{next, n % 10})
+					next++
+				case "removen":
+					if len(s) > 0 {
+						vals[s[0].id] = s[0].v
+						s = s[1:]
+					}
+				default:
+					if len(s) > 0 {
+						vals[s[len(s)-1].id] = s[len(s)-1].v
+						s = s[:len(s)-1]
+					}
+				}
+			}
+			if want := "ok | " + dump(); out[i] != want {
+				return &core.Failure{Key: "slist-" + t[0], Desc: fmt.Sprintf("op %d %q: implementation answered %q, sequence semantics give %q", i, c.Lines[i], clip(out[i]), clip(want))}
+			}
+			continue
+		}
+		if t[0] == "allbody" || t[0] == "walkbody" {
+			acts, brk, ok := parseScript(t[1:])
+			if !ok {
+				return nil
+			}
+			for _, as := range acts { // handles must exist when the loop starts
+				for _, a := range as {
+					n, ok := sArity[firstOr(a)]
+					if !ok || len(a) != 1+n {
+						return nil
+					}
+					hi := map[string]int{"pfn": 1, "pbn": 1, "next": 1, "insn": 2}[a[0]]
+					if hi > 0 {
+						if x, err := strconv.Atoi(a[hi]); err != nil || x < 0 || x >= next {
+							return nil
+						}
+					}
+				}
+			}
+			// for e := l.Front(); e != nil; e = e.Next(): Next after the body; a node that the body
+			// removed has a nil link, so the loop ends there
+			var ys []string
+			n := 0
+			cur := -1
+			if len(s) > 0 {
+				cur = s[0].id
+			}
+			for cur >= 0 {
+				if n == bigCap {
+					ys = append(ys, "!")
+					break
+				}
+				for _, x := range s {
+					if x.id == cur {
+						if t[0] == "allbody" {
+							ys = append(ys, strconv.Itoa(x.v))
+						} else {
+							ys = append(ys, strconv.Itoa(cur))
+						}
+					}
+				}
+				for _, a := range acts[n] {
+					if len(a) == 0 {
+						return nil
+					}
+					if _, ok := exec(a); !ok {
+						return nil
+					}
+				}
+				if brk[n] {
+					break
+				}
+				n++
+				nx := -1
+				for k := range s {
+					if s[k].id == cur && k+1 < len(s) {
+						nx = s[k+1].id
+					}
+				}
+				cur = nx
+			}
+			want := "y[" + strings.Join(ys, " ") + "] | " + dump()
+			if out[i] != want {
+				return &core.Failure{Key: "slist-" + t[0], Desc: fmt.Sprintf("op %d %q: implementation answered %q, the loop `for e := l.Front(); e != nil; e = e.Next()` over the sequence gives %q", i, c.Lines[i], clip(out[i]), clip(want))}
+			}
+			continue
+		}
+		res, ok := exec(t)
+		if !ok {
+			return nil
 		}
 		want := res + " | " + dump()
 		if out[i] != want {
@@ -528,7 +704,7 @@ func genS(r *core.Rand, tier string) core.Case {
 	}
 	for len(lines) <= n {
 		v := r.Range(0, 9)
-		switch r.Pick(8, 10, 10, 6, 12, 5, 8, 3, 2, 2, 3, 3) {
+		switch r.Pick(8, 10, 10, 6, 12, 5, 8, 3, 2, 2, 3, 3, 3) {
 		case 0:
 			lines = append(lines, fmt.Sprintf("pf %d", v))
 			ids = insAt(ids, 0, next)
@@ -599,6 +775,9 @@ func genS(r *core.Rand, tier string) core.Case {
 				ids = insAt(ids, clamp(i), e)
 			}
 			length++
+		case 12: // range over the list while the body mutates it
+			lines = append(lines, sLoopLine(r, &ids, &det, &next))
+			length = len(ids)
 		case 11:
 			switch r.Intn(5) {
 			case 0:
